@@ -19,8 +19,11 @@ def classify(lines):
     mx = dict(lines[0]["max"])
     open_ = {}
     c = {"rebonds": 0, "dup_in_chunk": 0, "refusals": 0, "expired": 0, "accepted": 0, "overflow_rate": 0, "setmax": 0,
-         "exceeds": 0, "inner_build_failures": 0, "bond_errors": 0, "bonded_in_failed_build": 0}
+         "exceeds": 0, "inner_build_failures": 0, "bond_errors": 0, "bonded_in_failed_build": 0,
+         "crash_retries_in_bond": 0, "crash_retries_in_unbond": 0}
     for l in lines[1:]:
+        c["crash_retries_in_bond"] += l.get("crashb", 0)
+        c["crash_retries_in_unbond"] += l.get("crashu", 0)
         if l["ev"] == "build":
             if len(set(l["txs"])) < len(l["txs"]):
                 c["dup_in_chunk"] += 1
@@ -88,6 +91,8 @@ def sig(f):
             kind = "bond-accepted-above-max"
         elif c_after and c_after["rebonds"] > c_before["rebonds"]:
             kind = "rebond-of-open-tx:" + kind
+    if ev.get("crashb", 0) + ev.get("crashu", 0) > 0:
+        kind = "after-crash-and-retry:" + kind.replace("bond-of-failed-build-not-released:", "")
     return "%s:%s" % (ev.get("ev"), kind)
 
 
@@ -119,7 +124,8 @@ def binding_tv(ctx, scenarios, depth):
     ctx.sample({"kind": "recorded-history", "first_lines": vlib.read_ndjson(files[0])[:5]})
     if ctx.only is None:
         for k in ("rebonds_observed", "refusals_observed", "expired_observed", "accepted_observed", "dup_in_chunk_observed",
-                  "inner_build_failures_observed", "bond_errors_observed", "bonded_in_failed_build_observed"):
+                  "inner_build_failures_observed", "bond_errors_observed", "bonded_in_failed_build_observed",
+                  "crash_retries_in_bond_observed", "crash_retries_in_unbond_observed"):
             if ctx.cov.get(k, 0) == 0:
                 raise vlib.Infra("vacuity: no %s in %d scenarios" % (k, len(files)))
     if os.environ.get("VERIF_CORRUPT"):   # self-test of the binding: falsify one recorded balance
@@ -143,6 +149,10 @@ def run(ctx):
         if not r["violated"]:
             raise vlib.Infra("sensitivity: the model of Bond as originally coded no longer violates the ledger")
         if not ctx.quick:
+            r = vlib.tlc_mc(ctx, "Bond_MC", "Bond_MC_tornunbond.cfg", label="tornunbond", expect_violation=True)
+            ctx.cov["design_step_detects_non_atomic_unbond_under_crash_retry"] = bool(r["violated"])
+            if not r["violated"]:
+                raise vlib.Infra("sensitivity: the model of a two-write Unbond no longer violates under crash + retry")
             r = vlib.tlc_mc(ctx, "Bond_MC", "Bond_MC_latetrack.cfg", label="latetrack", expect_violation=True)
             ctx.cov["design_step_detects_heap_add_after_inner_build"] = bool(r["violated"])
             if not r["violated"]:
@@ -152,7 +162,9 @@ def run(ctx):
     ctx.cov["rule"] = ("tv: seeded histories (30/60 calls) over 6 real transactions of 1-3 sponsors: BuildChunk with 1-4 txs "
                        "(duplicates inside the chunk and re-submission of recently built txs are biased in), fee rates "
                        "0,1,2,3,5 and an overflowing one, 1/6 of the builds with a failing inner DSMR.BuildChunk and 1/12 with a Bond "
-                       "error at a random position (what was bonded before stays bonded), Accept with even timestamps (expiries are odd) and 0-3 included "
+                       "error at a random position (what was bonded before stays bonded), a quarter of the Node calls with a crash "
+                       "point (one of the first three Bond / Unbond calls dies after 0-2 durable writes, the Bonder is "
+                       "re-created on the same database and the call retried), Accept with even timestamps (expiries are odd) and 0-3 included "
                        "txs, SetMaxBalance around multiples of a tx fee; a history is non-trivial when a still-bonded "
                        "transaction is bonded again and something is later settled by accept or expiry; distinct = distinct "
                        "(call, args, bond answers) sequences")
